@@ -82,7 +82,10 @@ def es_worker(args):
                            maxdepth=opts.get('maxdepth', 5), qtimeout=opts.get('qtimeout', 3000),
                            budget_s=opts.get('budget_s', 1e9),
                            degrees=range(-6, 7) if opts.get('scale', True) else [0])
-        rels = sw.direct() if opts.get('direct') else sw.run()
+        if opts.get('direct') == 'ackermann':
+            rels = sw.direct_ackermann()
+        else:
+            rels = sw.direct() if opts.get('direct') else sw.run()
         out['stats'] = sw.stats
         out['samples'] = sw.samples
         out['meta'] = dag.meta
@@ -97,10 +100,33 @@ def es_worker(args):
             for k in range(sw.K):
                 pts.append([sw.pts[k].get(i, dag.varwit[i]) for i in range(nv)])
             worst = None
+            if job['job'] == 'twowit':
+                # the two traces differ (state-dependent data went through .re()): is a reported derivative wrong?
+                # native confirmation = the property's own formulation at this one input: analytic dual part vs
+                # central finite difference of the library's own value, per direction
+                x = pts[0]
+                ncomp = len(x) - 3
+                for sd in ['T', 'V'] + ['N%d' % i for i in range(ncomp)]:
+                    fj = {'job': 'fd', 'model': job['model'], 'seed': [sd], 'h': 1e-6}
+                    nat = native(fj, x)
+                    if nat is None:
+                        continue
+                    scale = max([abs(nr['b']) for nr in nat['rels'] if _fin(nr['b'])] + [1e-300])
+                    for nr in nat['rels']:
+                        if nr['name'].split(':', 1)[1].replace(' ', '_') != r['name']:
+                            continue
+                        a, b = nr['a'], nr['b']
+                        if not (_fin(a) and _fin(b)):
+                            continue
+                        dev = abs(a - b) / max(abs(a), abs(b), 1e-300)
+                        if abs(a - b) < 1e-7 * scale:
+                            dev = 0.0
+                        if dev > 1e-5 and (worst is None or dev > worst['dev']):
+                            worst = {'x': x, 'a': a, 'b': b, 'dev': dev, 'direction': sd,
+                                     'meaning': 'a = central finite difference of the contribution, b = derivative reported through dual numbers'}
+                r['native_worst'] = worst
+                continue
             for x in pts:
-                if job['job'] == 'twowit':
-                    nat = native(job, x, x)   # same input through both traces' code path is the same native function
-                    continue
                 nat = native(job, x)
                 if nat is None:
                     continue
@@ -276,6 +302,13 @@ def ternaries(tier, seed):
     return S
 
 
+def jobs_C02(tier, seed):
+    jobs = []
+    for name, spec, n, T, V in systems(tier, seed):
+        jobs.append(('ext/' + name, {'job': 'ext', 'model': spec, 'x': state(n, T, V, seed)}, {'budget_s': 300 if tier == 'quick' else 1800}))
+    return jobs
+
+
 def jobs_C09(tier, seed):
     jobs = []
     perms = [[2, 0, 1]] if tier == 'quick' else [[2, 0, 1], [1, 2, 0], [1, 0, 2], [0, 2, 1], [2, 1, 0]]
@@ -386,6 +419,13 @@ def jobs_C10(tier, seed):
     d100s = {'kind': 'dippr', 'syn': [[100, 27000.0, 36.0, 0.375, -0.00018310546875], [100, 33000.0, -12.0, 0.75, 0.000732421875]]}
     jobs.append(('ideal_cp/joback', {'job': 'ideal_cp', 'model': jb, 'rgas': 6.022140857 * 1.38064852, 'x': state(2, 350.0, 1000.0, seed)}, {'direct': True, 'scale': False}))
     jobs.append(('ideal_cp/dippr100', {'job': 'ideal_cp', 'model': d100s, 'rgas': 8.31446261815324 * 1000.0, 'skip': 1, 'x': state(2, 350.0, 1000.0, seed)}, {'direct': True, 'scale': False}))
+    # integer coefficients: the library's f64 products b*c, p*p are exact
+    d127s = {'kind': 'dippr', 'syn': [[127, 33000.0, 36000.0, 1200.0, 15000.0, 3200.0, 7000.0, 9600.0], [127, 30000.0, 30000.0, 1000.0, 12000.0, 3000.0, 5000.0, 8000.0]]}
+    d107s = {'kind': 'dippr', 'syn': [[107, 33000.0, 26000.0, 2600.0, 8800.0, 1100.0], [107, 29000.0, 21000.0, 1500.0, 9000.0, 700.0]]}
+    jobs.append(('ideal_cp/dippr127', {'job': 'ideal_cp', 'model': d127s, 'rgas': 8.31446261815324 * 1000.0, 'skip': 1, 'x': state(2, 350.0, 1000.0, seed)}, {'direct': 'ackermann', 'scale': False}))
+    jobs.append(('ideal_cp/dippr107', {'job': 'ideal_cp', 'model': d107s, 'rgas': 8.31446261815324 * 1000.0, 'skip': 1, 'x': state(2, 350.0, 1000.0, seed)}, {'direct': 'ackermann', 'scale': False}))
+    for n_, s_ in (('dippr127', d127s), ('dippr107', d107s)):
+        jobs.append(('ideal_mix/' + n_, {'job': 'ideal_mix', 'model': s_, 'x': state(2, 350.0, 1000.0, seed)}, {'budget_s': 300}))
     if tier == 'thorough':
         d107 = {'kind': 'dippr', 'syn': [[107, 33363.0, 26790.0, 2610.5, 8896.0, 1169.0], [107, 29000.0, 21000.0, 1500.0, 9000.0, 700.0]]}
         d127 = {'kind': 'dippr', 'syn': [[127, 33258.0, 36199.0, 1205.0, 15176.0, 3277.0, 7002.0, 9876.0], [127, 30000.0, 30000.0, 1000.0, 12000.0, 3000.0, 5000.0, 8000.0]]}
